@@ -1898,7 +1898,9 @@ def serialize_graph_into(
                 serialize_value_into(graph_proto.value_info.add(), node_output)
     for output in from_.outputs:
         serialize_value_into(graph_proto.output.add(), from_=output)
-        _maybe_add_quantization_annotation(graph_proto, output)
+        if output.name not in input_names and output.name not in from_.initializers:
+            # Annotations for inputs and initializers were added above
+            _maybe_add_quantization_annotation(graph_proto, output)
     if from_.metadata_props:
         _serialize_metadata_props_into(graph_proto.metadata_props, from_.metadata_props)
 
